@@ -259,7 +259,13 @@ def random_history(seed, net="regtest", nblocks=14, thr=None, full=True, diffs=N
                 for b in batch:
                     cmds.append({"c": "push", "b": b})
                     if rng.random() < 0.5:
-                        cmds.append({"c": "ingest", "budget": rng.randint(1, 4) if (slicing and rng.random() < 0.4) else 0})
+                        # the canister never inserts blocks while an ingestion is paused: drain it
+                        if slicing and rng.random() < 0.4:
+                            for _ in range(rng.randint(1, 3)):
+                                cmds.append({"c": "ingest", "budget": rng.randint(1, 4)})
+                                if rng.random() < 0.5:
+                                    cmds += probes(rng, w, max_h, w.naddr, heavy=heavy_probes)
+                        cmds.append({"c": "ingest", "budget": 0})
                     if rng.random() < 0.5:
                         cmds += probes(rng, w, max_h, w.naddr, heavy=heavy_probes)
             delivered.update(batch)
